@@ -237,15 +237,12 @@ def session(cfg, inject_at=None, kind=None):
             else:
                 do_step()
         elif st[0] == "sleep":
-            if hook:
-                ml.set_alarm_in(st[1], lambda loop, data: None)  # the next step follows when the loop goes idle after this alarm
-            else:
-                time.sleep(st[1])
+            time.sleep(st[1])  # (the driver sets no alarms of its own: an alarm set from an idle callback does not wake every loop)
+            do_step()
         elif st[0] == "swap":
-            calls.append("swap")
+            calls.append(("swap",))
             ml.widget = w2
-            if hook:
-                ml.set_alarm_in(0.0, lambda loop, data: None)
+            do_step()
 
     if hook:
         # the next step is injected when the loop goes idle (the driver itself never raises)
@@ -414,8 +411,8 @@ def judge_clean(ctx, cfg, r):
     if norm[: len(want)] != want or (len(norm) > len(want)):
         V("input-exact", f"the script sends {want}; the input filter saw {seen}")
     # ---- the topmost widget gets the events and is the one drawn: after the application replaced loop.widget, only the new one
-    if "swap" in calls:
-        after = calls[calls.index("swap"):]
+    if ("swap",) in calls:
+        after = calls[calls.index(("swap",)):]
         old_used = [after[i + 1] for i, c in enumerate(after[:-1]) if c == ("widget", 1) and isinstance(after[i + 1], str)]
         if old_used:
             V("topmost-widget", f"after loop.widget was replaced the old widget still got {old_used}", "popups" if popups else "plain")
